@@ -75,8 +75,8 @@ def playSetups (base : Url) (n : Nat) (auth : Bool) : List Nat â†’ SetupState â†
     if s.t.failed.isSome then s else
     match mediaURL (control i) (some base) with
     | .err => { s with t := s.t.fail "setup" }
-    | mu =>
-      let target := requestTarget (match mu with | .url u => some u | _ => none)
+    | .url mu =>
+      let target := requestTarget (some mu)
       let t := s.t.line "SETUP" target
       match serverURL target with
       | none => { s with t := t.fail "setup" }
@@ -138,8 +138,8 @@ def recordSetups (u : Url) (controls : List Str) (p q : Str) (auth : Bool) : Lis
     if s.t.failed.isSome then s else
     match mediaURL (control i) (some u) with
     | .err => { s with t := s.t.fail "setup" }
-    | mu =>
-      let target := requestTarget (match mu with | .url u => some u | _ => none)
+    | .url mu =>
+      let target := requestTarget (some mu)
       let t := s.t.line "SETUP" target
       match serverURL target with
       | none => { s with t := t.fail "setup" }
@@ -183,7 +183,7 @@ def camSetups (base : Url) : List Str â†’ Trace â†’ Trace
     if t.failed.isSome then t else
     match mediaURL c (some base) with
     | .err => t.fail "setup"
-    | mu => camSetups base rest (t.line "SETUP" (requestTarget (match mu with | .url u => some u | _ => none)))
+    | .url mu => camSetups base rest (t.line "SETUP" (requestTarget (some mu)))
 
 /-- Client against a scripted camera: Describe(u) answered with the given Content-Base header values
 and session-level / media-level control attributes; Setup of every media in order; Play; Close. -/
